@@ -17,7 +17,7 @@ pub fn read_jsonl<T: DeserializeOwned>(path: &str) -> Vec<T> {
 
 /// Runs every spec through `f` on `jobs` threads; thread j writes <out>/trace_<j>.ndjson (runs in
 /// ascending run number) and <out>/captured_<j>.hex (every datagram the code under test emitted).
-pub fn run_parallel<S: Send + Sync + 'static>(
+pub fn run_parallel<S: Send + Sync + serde::Serialize + 'static>(
     opt: &HashMap<String, String>,
     specs: Vec<S>,
     f: fn(usize, &S, &mut Vec<Value>) -> Vec<Vec<u8>>,
@@ -34,11 +34,13 @@ pub fn run_parallel<S: Send + Sync + 'static>(
         handles.push(std::thread::spawn(move || {
             let mut tf = std::io::BufWriter::new(std::fs::File::create(format!("{out_dir}/trace_{j}.ndjson")).unwrap());
             let mut cf = std::io::BufWriter::new(std::fs::File::create(format!("{out_dir}/captured_{j}.hex")).unwrap());
+            let mut sf = std::io::BufWriter::new(std::fs::File::create(format!("{out_dir}/specs_{j}.jsonl")).unwrap());
             let mut events = 0usize;
             let mut k = j;
             while k < n {
                 let mut ev = vec![];
                 let cap = f(k, &specs[k], &mut ev);
+                writeln!(sf, "{}", serde_json::json!({"run": k, "spec": &specs[k]})).unwrap();
                 for e in &ev {
                     serde_json::to_writer(&mut tf, e).unwrap();
                     tf.write_all(b"\n").unwrap();
